@@ -37,8 +37,8 @@ def decision_input(trs):
         iv, now, n, lib = s
         e = {"iv": iv, "now": now, "n": n, "lib": lib, "act": a["name"], "line": line}
         if a["name"] == "Elect":
-            lists[str(len(a["l"]))] = a["l"]
-            e["n2"] = len(a["l"])
+            lists[str(d[2])] = a["l"]        # d[2] = Lid of the elected list (its length, +1000 for same-size variants)
+            e["n2"] = d[2]
         elif a["name"] == "Submit":
             e["r"] = a["r"]
             e["res"] = d[4][0]
@@ -112,7 +112,7 @@ def run(c):
         c.require_ok(gen2, "decision model transitions (%s)" % gcfg)
         lists, T = parsed
         nsub = sum(1 for e in T if e["act"] == "Submit")
-        if len(lists) != 6 or nsub < 30000:
+        if len(lists) != 8 or nsub < 30000:
             raise vlib.Infra("decision transitions incomplete: %d lists, %d Submit" % (len(lists), nsub))
         inpath = os.path.join(c.work, "producer_in.json")
         json.dump({"lists": lists, "keys": 102, "trans": T, "random_events": 20000 if thorough else 3000,
@@ -171,3 +171,8 @@ def run(c):
         raise box["mc_err"]
     c.require_ok(box["mc"], "Slot design: unique owner, slot law, decision sound/exact, mutations detected, honest producer accepted (%s)" % mc)
     c.exhaustive = True
+    # the node's acceptance path above the consensus checks: forged copies of genuine blocks (altered header under the genuine
+    # identifier, signature no longer verifying) delivered before the genuine ones, in arrival orders with children before
+    # parents - a block whose signature does not verify must not be connected through the orphan pool either
+    from checks import c18_chain
+    c18_chain.run_chain_identity(c)
